@@ -33,11 +33,17 @@ def run_case(args):
             if list(it.directives) != want_dirs:
                 fails.append(("iterator_directives_" + form, list(it.directives)))
         if want_feats:
-            for form in ("path", "string"):
+            for form in ("path", "string", "path_dialect_given", "path_options"):
                 with S.quiet(), warnings.catch_warnings():
                     warnings.simplefilter("ignore")
                     if form == "path":
                         db = gffutils.create_db(path, dbfn, checklines=c["cl"], force=True)
+                    elif form == "path_dialect_given":      # the caller states the dialect: directives are kept all the same
+                        from gffutils import constants
+                        db = gffutils.create_db(path, dbfn, checklines=c["cl"], force=True, dialect=dict(constants.dialect))
+                    elif form == "path_options":            # other importer options in play
+                        db = gffutils.create_db(path, dbfn, checklines=c["cl"], force=True, keep_order=True, merge_strategy="create_unique",
+                                                sort_attribute_values=True, id_spec=["ID", "Name"], transform=lambda f: f)
                     else:
                         db = gffutils.create_db(text, dbfn, checklines=c["cl"], force=True, from_string=True)
                 got = [S.fid(f) for f in db.all_features()]
